@@ -136,7 +136,7 @@ def parse (op okObs : List String) : Option Op :=
   | ["collect", kd, i, j], [_amt, rew] => do pure (.collect (← provKind? kd) (← nat? i) (← nat? j) (← nat? rew))
   | ["updb", i, cap, wp], [] => do pure (.updBlobber (← nat? i) (← optNat? cap) (← optNat? wp))
   | ["kill", "b", i], [ns, del] => do pure (.killBlobber (← nat? i) (← nat? ns) (del = "1"))
-  | ["shut", "b", i], [_ns, del] => do pure (.shutBlobber (← nat? i) (del = "1"))
+  | ["shut", "b", i], [ns, del] => do pure (.shutBlobber (← nat? i) (← nat? ns) (del = "1"))
   | ["kill", "v", i], [ns, del] => do pure (.killValidator (← nat? i) (← nat? ns) (del = "1"))
   | ["newa", j, data, _parity, size, value, _bl], [chosen] => do
       pure (.newAlloc (← nat? j) (← nat? data) (← nat? size) (← nat? value) (← natCsv? chosen))
